@@ -22,7 +22,20 @@ def run_pipeline(S, case):
     G = {"submitted_stages": [], "pipeline_saves": 0}
     saved = (PM.create_config_from_file, PM.JobSubmitter.run_submit_jobs, PipelineManager._serialize)
     PM.create_config_from_file = lambda f: _FakeCfg()
-    PM.JobSubmitter.run_submit_jobs = staticmethod(lambda config, output, pipeline_stage_num=None: (G["submitted_stages"].append(pipeline_stage_num), 0)[1])
+    late = []
+
+    def fake_submit(config, output, pipeline_stage_num=None):
+        # C15: when a stage is handed over, pipeline.json must already record it (the stage's completion trigger is compared with the file)
+        import json
+        try:
+            on_disk = json.load(open(os.path.join(G["_outdir"], PipelineManager.CONFIG_FILENAME)))["stage_num"]
+        except Exception as exc:      # noqa
+            on_disk = f"unreadable ({type(exc).__name__})"
+        if on_disk != pipeline_stage_num:
+            late.append((pipeline_stage_num, on_disk))
+        G["submitted_stages"].append(pipeline_stage_num)
+        return 0
+    PM.JobSubmitter.run_submit_jobs = staticmethod(fake_submit)
     orig_ser = saved[2]
 
     def ser(self):
@@ -40,6 +53,7 @@ def run_pipeline(S, case):
             PipelineManager.create_config_from_files([f"c{i}.json" for i in range(n)], cf, sp)
             outdir = os.path.join(d, "out")
             mgr = PipelineManager.create(cf, outdir)
+            G["_outdir"] = outdir
             steps = [(1, None)]
             cur = 1
             for _ in range(case["steps"]):
@@ -59,6 +73,9 @@ def run_pipeline(S, case):
                     r["failed"] = [f"step {idx} (stage_num={k}, rc={rc}): " + x for x in r["failed"]]
                     return r
                 out = r
+        if late:
+            out["ok"] = False
+            out["failed"].append(f"C15: stage handed over before pipeline.json records it (stage, stage_num on disk): {late[:3]}")
         subs = G["submitted_stages"]
         if subs != list(range(1, len(subs) + 1)):
             out["ok"] = False
